@@ -63,6 +63,10 @@ def check(c):
         Xn = rng.normal(size=(5, m)); P = est.predict(Xn)
         expect(np.all(np.linalg.norm(P, axis=1) <= np.linalg.norm(Xn, axis=1) * (1 + 1e-9) + 1e-12), sig('post[C18]:predictions-never-have-a-larger-norm-than-their-inputs'))
         expect(np.allclose(P, Xn @ Om, atol=1e-10), sig('post[C18]:predict-is-X-times-the-weights'))
+    if p == 1:
+        # a single target given as a one-dimensional array is the same problem as the (n, 1) column
+        e1 = OrthogonalRegression(use_orthogonal_projector=c['proj'], linear_estimator=(Ridge(alpha=ua, fit_intercept=False) if c['user'] else None)).fit(X, Y[:, 0])
+        expect(np.asarray(e1.coef_).shape == np.asarray(est.coef_).shape and np.allclose(e1.coef_, est.coef_, atol=1e-9), sig('post[C18]:one-dimensional-targets-give-the-map-of-the-single-column'), f"{np.asarray(e1.coef_).shape} vs {np.asarray(est.coef_).shape}")
     # exact recovery of a rotation (full-rank X)
     d = max(m, p) if not c['proj'] else m
     if (not c['proj']) or m == p:
